@@ -108,7 +108,7 @@ func Start(id string) *Run {
 		}
 	}
 	r.OnlyCase = os.Getenv("VERIF_CASE")
-	if r.OnlyCase == "" { // stale witnesses of earlier runs of this property
+	if r.OnlyCase == "" && os.Getenv("VERIF_CHILD_REPORT") == "" { // stale witnesses of earlier runs of this property
 		if old, _ := filepath.Glob(filepath.Join(Root(), "replays", id+"-*.json")); old != nil {
 			for _, f := range old {
 				_ = os.Remove(f)
@@ -222,10 +222,60 @@ func (r *Run) Inconclusive(reason string) {
 	r.mu.Unlock()
 }
 
+// ChildReport is what a child process of a check hands back to its parent (VERIF_CHILD_REPORT=<path>).
+type ChildReport struct {
+	Violations []violation      `json:"violations"`
+	KnownHits  map[string]int   `json:"known_hits"`
+	Counters   map[string]int64 `json:"counters"`
+	Evals      int64            `json:"evals"`
+	Distinct   []string         `json:"distinct"`
+	Floors     []string         `json:"floors"`
+}
+
+// MergeChild folds a child's report into this run; violation signatures get the given suffix.
+func (r *Run) MergeChild(path, sigSuffix, counterPrefix string) error {
+	b, err := os.ReadFile(path)
+	if err != nil {
+		return err
+	}
+	var cr ChildReport
+	if err := json.Unmarshal(b, &cr); err != nil {
+		return err
+	}
+	for _, v := range cr.Violations {
+		r.Violation(v.Sig+sigSuffix, v.Case, v.Detail)
+	}
+	r.mu.Lock()
+	for k, n := range cr.KnownHits {
+		r.knownHits[k] += n
+	}
+	for k, n := range cr.Counters {
+		r.counters[counterPrefix+k] += n
+	}
+	r.evals += cr.Evals
+	for _, d := range cr.Distinct {
+		r.distinct[counterPrefix+d] = struct{}{}
+	}
+	for _, f := range cr.Floors {
+		r.floors = append(r.floors, counterPrefix+f)
+	}
+	r.mu.Unlock()
+	return nil
+}
+
 // Finish writes evidence, prints the verdict lines and exits.
 func (r *Run) Finish() {
 	r.mu.Lock()
 	defer r.mu.Unlock()
+	if p := os.Getenv("VERIF_CHILD_REPORT"); p != "" {
+		cr := ChildReport{Violations: r.viol, KnownHits: r.knownHits, Counters: r.counters, Evals: r.evals, Floors: r.floors}
+		for k := range r.distinct {
+			cr.Distinct = append(cr.Distinct, k)
+		}
+		b, _ := json.Marshal(cr)
+		_ = os.WriteFile(p, b, 0o644)
+		os.Exit(0)
+	}
 	root := Root()
 	cov := map[string]any{}
 	for k, v := range r.extra {
